@@ -233,9 +233,17 @@ class CoqCaseError(Exception):
     pass
 
 
-def run_cases(pid, imports, terms, shard=250, timeout=1800, tag=""):
+NOT_EVALUATED = 98      # branch number of a verdict that the assistant did not finish computing within the limit
+
+
+def run_cases(pid, imports, terms, shard=250, timeout=None, tag="", _single=False):
     """terms: Gallina terms of type `verdict` (bool * nat). One coqc process per shard, all
-    evaluated by vm_compute. Returns list of (ok, branch)."""
+    evaluated by vm_compute. Returns list of (ok, branch).
+    A shard that runs out of time (an implementation gone wrong can hand the model an observation whose replay is enormous) is
+    evaluated again term by term under a short limit; a term that still does not finish is a rejection with branch NOT_EVALUATED -
+    reported like any other rejected case, never a crash of the check."""
+    if timeout is None:
+        timeout = 1800 if os.environ.get("VERIF_TIER") == "thorough" else 600
     CASES.mkdir(exist_ok=True)
     stamp = "%s%s_%d" % (pid, tag, os.getpid())
     files = []
@@ -269,6 +277,10 @@ def run_cases(pid, imports, terms, shard=250, timeout=1800, tag=""):
 
     def finish(p, path, n):
         out, err = p.communicate()
+        if p.returncode in (124, 137) and not _single:
+            return None            # out of time: term by term below
+        if p.returncode in (124, 137):
+            return [(False, NOT_EVALUATED)] * n
         if p.returncode != 0:
             raise CoqCaseError("coqc failed on %s:\n%s" % (path, (out + err)[-3000:]))
         pairs = re.findall(r"\(\s*(\d+)(?:%nat)?\s*,\s*(\d+)(?:%nat)?\s*\)", out[out.rfind("= ["):] if "= [" in out else out)
@@ -287,7 +299,9 @@ def run_cases(pid, imports, terms, shard=250, timeout=1800, tag=""):
             running.append((p, path, n))
         p, path, n = running.pop(0)
         res_by_file[path] = finish(p, path, n)
-    for path, n in files:
+    for (path, n), chunk in zip(files, chunks):
+        if res_by_file[path] is None:
+            res_by_file[path] = run_cases(pid, imports, chunk, shard=1, timeout=int(os.environ.get("VERIF_TERM_TIMEOUT", "120")), tag=tag + "s%d" % files.index((path, n)), _single=True)
         results.extend(res_by_file[path])
     keep = os.environ.get("VERIF_KEEP_CASES")
     if not keep:
@@ -436,7 +450,8 @@ def decide(run, items, imports, accept, oracle, known=None, max_reports=5, shard
         if reports < max_reports:
             reports += 1
             run.violation({"correspondence": accept, "case": it["case"], "observed": it["obs"],
-                           "model_verdict": "rejected (branch %d)" % tag,
+                           "model_verdict": ("rejected (branch %d)" % tag) if tag != NOT_EVALUATED else
+                                            "the model's verdict on this observation was not computed within the limit (counted as a rejection)",
                            "property_oracle": {"name": name, "holds": holds}},
                           concrete=(holds is False))
         else:
